@@ -53,6 +53,7 @@ func (t *Queue[T]) Add(value T, scheduledTime time.Time) (addedElement *QueueEle
 
 		return nil
 	}
+	verifYield("Queue.Add:after-shutdown-check")
 
 	// acquire locks
 	t.heapMutex.Lock()
